@@ -63,6 +63,21 @@ structure VMCounter where
   atomic : Bool
   deriving DecidableEq, Repr
 
+/-- one use of a package-level map / `sync.Map` of `std/net/http` (every non-test Go file): the
+registries in which the request path keeps per-request state for the whole process -/
+structure RegistrySite where
+  var   : String   -- the package-level variable: "requestFormatterSlots"
+  fn    : String   -- the function the site is in: "attachRequestFormatter"
+  op    : String   -- Store | Load | LoadOrStore | LoadAndDelete | Delete | Swap | CompareAndSwap |
+                   -- CompareAndDelete (sync.Map), index | index-assign | delete (plain map),
+                   -- call (a call of a function that uses its parameter as such a key: fn = caller→callee),
+                   -- Range | Clear | range | escapes | method:<m> (the whole map is walked, cleared or handed on)
+  key   : String   -- the key expression as written: "r"
+  keyIs : String   -- "request": an identifier declared `*http.Request` in that function — the request's
+                   -- identity; "derived:<why>": anything computed (`r.Context()`, `requestKey(r)`, a
+                   -- string, an int …); "none": the operation has no key
+  deriving DecidableEq, Repr
+
 structure Facts where
   cells           : List CellFact
   entries         : List EntryFact
@@ -72,6 +87,7 @@ structure Facts where
   nodeWrites      : List NodeWrite -- stores of evaluation-time methods of package node into their own receiver
   depthGuards     : List DepthGuard -- every place that enters a process-wide counter of the VM
   vmCounters      : List VMCounter  -- numeric fields of the VM types
+  registries      : List RegistrySite -- every use of a package-level map / sync.Map of std/net/http
   shape           : List String   -- places where the source no longer has the shape the translator understands
   deriving Repr
 
@@ -149,6 +165,45 @@ def Facts.violations (f : Facts) : List String :=
       !(f.cells.any (fun c => c.vars.contains v.name)))).map (fun v => "pkgvar:" ++ v.pkg ++ "." ++ v.name)) ++
   f.nodeWriteViolations ++
   f.shape.map (fun s => "shape:" ++ s)
+
+/-! ### Registries of per-request state are keyed by the request's identity
+
+State a request keeps in a process-wide registry (the `onFormat` slot, the attribute bag) stays
+its own only if the key under which it stores, loads and deletes identifies the request uniquely
+among the requests in flight: the `*http.Request` pointer does (net/http makes one per request and
+the registry itself keeps it alive until the entry is deleted).  Anything derived from the
+request — its `Context()` (equal for all requests built in-process: `context.Background()`), URL,
+client address, a header, a counter that is recycled — can coincide for two requests in flight:
+they then share the entry, and the first to finish deletes it for the other.  The translator
+lists every use of every package-level map of `std/net/http` with its key expression. -/
+
+def keyedOps : List String :=
+  ["Store", "Load", "LoadOrStore", "LoadAndDelete", "Delete", "Swap", "CompareAndSwap", "CompareAndDelete",
+   "index", "index-assign", "delete", "call"]
+
+def deleteOps : List String := ["Delete", "LoadAndDelete", "CompareAndDelete", "delete"]
+
+/-- what the facts show against request-keyed registries, by name -/
+def Facts.registryViolations (f : Facts) : List String :=
+  List.eraseDups <|
+  -- a key that is not the request itself
+  ((f.registries.filter (fun s => keyedOps.contains s.op && s.keyIs != "request")).map
+      (fun s => "registry-key-not-request-identity:" ++ s.var ++ ":" ++ s.fn ++ ":" ++ s.key)) ++
+  -- the whole registry walked / cleared / handed on: entries of other requests are reached
+  ((f.registries.filter (fun s => !(keyedOps.contains s.op))).map
+      (fun s => "registry-swept:" ++ s.var ++ ":" ++ s.fn ++ ":" ++ s.op)) ++
+  -- a registry the model was told is request-keyed but nothing uses / nothing ever deletes from
+  ((requestKeyed.filter (fun v => !(f.registries.any (fun s => s.var == v.name)))).map
+      (fun v => "registry-without-sites:" ++ v.name)) ++
+  ((requestKeyed.filter (fun v => f.registries.any (fun s => s.var == v.name) &&
+        !(f.registries.any (fun s => s.var == v.name && deleteOps.contains s.op)))).map
+      (fun v => "registry-never-detached:" ++ v.name)) ++
+  -- a registry with sites that is not in the list of request-keyed package variables
+  ((f.registries.filter (fun s => !(requestKeyed.any (fun v => v.name == s.var)))).map
+      (fun s => "registry-unknown:" ++ s.var ++ ":" ++ s.fn))
+
+/-- every site of every registry uses the request's identity as the key -/
+def Facts.registryKeysIdentity (f : Facts) : Bool := f.registryViolations.isEmpty
 
 /-! ### Limits are accounted per request
 
